@@ -21,7 +21,7 @@ func init() {
 			"R18-delegate — table.insert/remove/getn/maxn/concat and unpack reach the list through the LTable list helpers (Append, Insert, Remove, Len, MaxN, RawGetInt) with the documented argument positions; R09-route shared (unpack/concat/ipairs read through RawGetInt, which now agrees with the setters). " +
 			"R18-arrayowner — outside LTable's own methods the array part is read by nobody except table.sort, and there only as array[:Len()]: list functions take their length from the border (Len), never from the physical size of the array part, which may hold trailing nils. NOT decided: insert/remove shifting, concat ranges, ordering of the sorted result, behaviour under inconsistent comparators — list histories and comparator behaviour are run-time quantities.",
 		Trusted: []string{"package sort only rearranges through Swap (stdlib contract)"},
-		Rules:   []func(*Ctx){ruleArrayPresenceIsNotNil, ruleNoSentinelDefaults, ruleInsertShiftsWhateverTheValue, ruleSurplusArgs, ruleInsertBoundary, ruleSwap, ruleDelegate, ruleRoute, ruleArrayReaders, ruleTableLib, ruleTableArgs, ruleConcatSeparator},
+		Rules:   []func(*Ctx){ruleListHelpersUseTheBorder, ruleArrayPresenceIsNotNil, ruleNoSentinelDefaults, ruleInsertShiftsWhateverTheValue, ruleSurplusArgs, ruleInsertBoundary, ruleSwap, ruleDelegate, ruleRoute, ruleArrayReaders, ruleTableLib, ruleTableArgs, ruleConcatSeparator},
 	})
 	register(&propInfo{
 		ID:    "C20",
@@ -30,7 +30,7 @@ func init() {
 			"R20-order — the searcher list has the preload searcher before the path searcher; OpenPackage publishes the same loaders/loaded tables under package.* and in the registry; RegisterModule stores the module both in _LOADED[name] and under its global name; PreloadModule writes package.preload[name]; the preload searcher reads package.preload. " +
 			"NOT decided: at-most-once under arbitrary histories, error text contents.",
 		Trusted: []string{},
-		Rules:   []func(*Ctx){rulePathExpansionSeesTheRawValue, ruleLibrariesThroughRegisterModule, ruleLoopMarkerPrivate, rulePackageTableInRegistry, ruleModuleNameDots, ruleSentinel, ruleOrder, ruleModulePublishes, ruleSearchersReadOnly, ruleRegisterModuleAdds, ruleFindTableRaw},
+		Rules:   []func(*Ctx){ruleMissingModuleListsEverything, rulePathExpansionSeesTheRawValue, ruleLibrariesThroughRegisterModule, ruleLoopMarkerPrivate, rulePackageTableInRegistry, ruleModuleNameDots, ruleSentinel, ruleOrder, ruleModulePublishes, ruleSearchersReadOnly, ruleRegisterModuleAdds, ruleFindTableRaw},
 	})
 }
 
